@@ -256,10 +256,37 @@ class Item:
 '''
 
 
+XMOD_MODELS = '''
+import dataclasses
+@dataclasses.dataclass
+class Account:
+    n: int
+PayeeId = 5   # an unrelated object that happens to carry the wrapper's name
+'''
+XMOD_API = '''
+import dataclasses, typing
+import c09_xmodels
+AccountRef = typing.NewType("AccountRef", c09_xmodels.Account)
+AccountAlias = typing.TypeAliasType("AccountAlias", c09_xmodels.Account)
+PayeeId = typing.NewType("PayeeId", c09_xmodels.Account)
+@dataclasses.dataclass
+class Transfer:
+    src: AccountRef
+    dst: AccountRef
+    via: list[AccountRef]
+@dataclasses.dataclass
+class Transfer2:
+    src: AccountAlias
+    dst: AccountAlias
+    payee: PayeeId
+    payee2: PayeeId
+'''
+
+
 def special_programs():
     import types
     out = []
-    for name, src in (("c09_nested", NESTED_SRC), ("c09_same_a", SAME_A), ("c09_same_b", SAME_B)):
+    for name, src in (("c09_nested", NESTED_SRC), ("c09_same_a", SAME_A), ("c09_same_b", SAME_B), ("c09_xmodels", XMOD_MODELS), ("c09_xapi", XMOD_API)):
         m = types.ModuleType(name)
         sys.modules[name] = m
         exec(compile(src, name, "exec"), m.__dict__)  # noqa: S102
@@ -272,6 +299,11 @@ def special_programs():
     out.append(("same-name:list[b.Item]", list[B.Item]))
     out.append(("same-name:tuple[a.Item, b.Item]", tuple[A.Item, B.Item]))
     out.append(("same-name:dict[str, b.Item | None]", dict[str, typing.Optional[B.Item]]))
+    X = sys.modules["c09_xapi"]
+    out.append(("cross-module-wrapper:Transfer", X.Transfer))
+    out.append(("cross-module-wrapper:Transfer2", X.Transfer2))
+    out.append(("cross-module-wrapper:list[Transfer]", list[X.Transfer]))
+    out.append(("cross-module-wrapper:tuple[AccountRef, AccountRef]", tuple[X.AccountRef, X.AccountRef]))
     return out
 
 
@@ -377,8 +409,10 @@ def run_shard(shard, col):
         nontriv = U.has_kind(p.spec, "ref") or len(p.mat.modules) > 1 or U.size(p.spec) >= 6
         check_program(p.spec, p.mat, p.col, p.case(), nontrivial=nontriv)
 
+    adv = shard["seed"] % 2 == 1
     progs.drive_programs(col, seed=shard["seed"], n=shard["n"],
-                         spec_strategy=U.root_specs(max_depth=shard["depth"], mods=2), per_program=per_program)
+                         spec_strategy=U.root_specs(max_depth=shard["depth"], mods=3 if adv else 2, adversarial=adv),
+                         per_program=per_program)
     col.exhaustive_done = True
 
 
